@@ -255,9 +255,19 @@ func c06try(f func() map[string]interface{}) (out map[string]interface{}) {
 func c06parse(h *sam.Header, refs []*sam.Reference, line []byte) map[string]interface{} {
 	return c06try(func() map[string]interface{} {
 		var r sam.Record
-		err := r.UnmarshalSAM(h, line)
+		// the caller owns the line buffer: it checks that the parser left it
+		// alone and then recycles it (a bufio.Scanner loop does), so a record
+		// that still points into it changes under the caller's feet
+		buf := append([]byte(nil), line...)
+		err := r.UnmarshalSAM(h, buf)
 		if err != nil {
 			return map[string]interface{}{"err": err.Error()}
+		}
+		if !bytes.Equal(buf, line) {
+			return map[string]interface{}{"panic": "UnmarshalSAM modified the line it was given"}
+		}
+		for i := range buf {
+			buf[i] = '#'
 		}
 		o := map[string]interface{}{"rec": c06dump(&r, refs)}
 		for k, ff := range []int{sam.FlagDecimal, sam.FlagHex} {
